@@ -323,8 +323,14 @@ func (c *Ctx) concretize(v value, what string, pos token.Pos, lo, hi int64) int6
 		}
 		return math.MaxInt64
 	}
+	narrowed := false
+	fullHi := hi
 	if hi-lo > int64(c.h.maxSplit) {
-		c.unsupported("case split of %s over %d values exceeds bound %d at %s", what, hi-lo+1, c.h.maxSplit, c.posStr(pos))
+		// the interval is too wide to enumerate; enumerate the first maxSplit values and let the
+		// solver say whether anything above them is feasible on this path (it often is not: the
+		// code has just compared the value with a length)
+		hi = lo + int64(c.h.maxSplit)
+		narrowed = true
 	}
 	n := int(hi - lo + 1)
 	conds := make([]*Term, 0, n+2)
@@ -339,6 +345,9 @@ func (c *Ctx) concretize(v value, what string, pos token.Pos, lo, hi int64) int6
 	case k == n:
 		return lo - 1
 	default:
+		if narrowed {
+			c.unsupported("case split of %s over %d values exceeds bound %d at %s", what, fullHi-lo+1, c.h.maxSplit, c.posStr(pos))
+		}
 		return hi + 1
 	}
 }
